@@ -109,9 +109,9 @@ func lexGoCode(l *lexer) lexFn {
 }
 
 func lexTemplate(l *lexer) lexFn {
-	l.acceptUntil(" ")
-	switch l.current() {
-	case "@goht":
+	// the word never extends past its line: an `@` line without a blank must not swallow the lines below it
+	l.acceptUntil(" \n\r")
+	if l.current() == "@goht" && l.peek() == ' ' {
 		return lexGohtStart
 	}
 	// any other line starting with '@' (a raw string or comment line) is ordinary Go code
